@@ -171,3 +171,42 @@ CHECKS["C07"] = {
         {"pkg": "gbnprop", "run": "FuzzC07Deserialize", "kind": "fuzz", "fuzztime": (0, 60), "tiers": ("thorough",), "parallel": 8},
     ],
 }
+
+CHECKS["C03"] = {
+    "level": "exploration",
+    "rule": ("rapid-generated handshakes over an in-memory message pipe that records every byte: XX with equal / one-bit-different (any of the 112 bits) / random / shorter passphrases, all compatible version ranges, "
+             "KK with each side's stored remote key right or wrong, drawn static keys, deterministic ephemerals, auth payloads 16 B .. 200 KB. Oracle: both DoHandshake succeed iff the secrets match; on a mismatch the responder "
+             "returns an error having written zero bytes, the initiator returns an error, its AuthData is nil, no onAuthData/onRemoteStatic callback fired, and the (high-entropy) payload appears nowhere on the wire. "
+             "Non-trivial: the mismatch cases; distinct by configuration."),
+    "assumptions": ["scrypt cost lowered by the verif hook (as the repo's rpctest tag does)"],
+    "units": [
+        {"pkg": "mboxprop", "run": "TestC03Secrets", "checks": (3000, 60000), "shards": (1, 8), "timeout": (900, 3600)},
+    ],
+}
+
+CHECKS["C04"] = {
+    "level": "fault_enumeration",
+    "rule": ("(1) exhaustive: all 81 (iMin,iMax,rMin,rMax) in {0,1,2}^4 x {XX,KK}, clean, and for every valid range all 4^3 (XX) / 4^2 (KK) substitutions of the acts' version bytes by 0..3; "
+             "(2) exhaustive: every single-bit flip of every byte of every act for XX v0, v1, v2, XX negotiated 0..2 and KK; (3) rapid: payload sizes {0,1,497..501,65535..65537, up to 3 MiB}, nil payload, random multi-byte rewrites, random version substitutions. "
+             "Oracle: if both sides return nil they agree on version (hook), hold complementary traffic keys (hook and a probe record each way), each other's true static key, the same SID and next pattern, onRemoteStatic fired on both or neither; "
+             "an initiator that completed holds exactly the responder's payload. Non-trivial: the relay changed a byte, or the negotiated version differs from a side's maximum; distinct by case."),
+    "exhaustive_scope": "81 ranges x 2 patterns x all version-byte substitutions; all single-bit flips of 5 handshakes",
+    "assumptions": ["scrypt cost lowered by the verif hook"],
+    "units": [
+        {"pkg": "mboxprop", "run": "TestC04Matrix", "kind": "plain", "timeout": (900, 3600)},
+        {"pkg": "mboxprop", "run": "TestC04BitFlips", "kind": "plain", "shards": (2, 8), "timeout": (900, 3600)},
+        {"pkg": "mboxprop", "run": "TestC04Rapid", "checks": (1500, 30000), "shards": (1, 8), "timeout": (900, 3600)},
+    ],
+}
+
+CHECKS["C17"] = {
+    "level": "exploration",
+    "rule": ("rapid-generated 14-byte entropies (plus all-zero, all-one and all 112 single-bit patterns), 10-word phrases from aezeed.DefaultWordList (plus first/last word repeated), static key pairs and pairs of secrets. "
+             "Oracle: MnemonicToEntropy(EntropyToMnemonic(e)) == e with the two unused low bits cleared; EntropyToMnemonic(MnemonicToEntropy(w)) == w; NewPassphraseEntropy is consistent; client and server ConnData.SID agree for "
+             "the same passphrase and, after SetRemote on both, agree with each other and differ from the passphrase SID (and the pattern switches XX->KK); GetSID(sid,true) and GetSID(sid,false) differ in exactly the last bit; "
+             "distinct passphrases / client keys give distinct SIDs; the stream-direction clause is also observed at the in-memory relay (TestC17Streams). Non-trivial: entropy with an unused low bit set, every phrase and SID case."),
+    "assumptions": ["stream-direction agreement is relative to the in-memory relay"],
+    "units": [
+        {"pkg": "mboxprop", "run": "TestC17Codec", "checks": (20000, 400000), "shards": (1, 4), "timeout": (600, 3600)},
+    ],
+}
